@@ -5,12 +5,12 @@ RULE = ("for the histories of the MC_Parser instances text / children / attrs, F
         "(<x/> and <x></x>, Text and CDATA lead to the same full state in every reading state); on the real code every "
         "rewrite the property lists (other values, other text incl. whitespace, text<->CDATA, insert/remove comment, PI, XML "
         "declaration, DOCTYPE, <x/> <-> <x></x>, expand_empty_elements, chunked readers and BufReader capacities 1..64) is "
-        "applied (quick: one random position per kind; thorough: every position) and the rendered bytes under both presets "
+        "applied (quick: one random position per kind on every 6th-12th history; thorough: every position on every 2nd-4th history) and the rendered bytes under both presets "
         "and both sort orders must be identical. non-trivial = a session to which at least one structural rewrite applied")
 
 
 def run(tier, rep):
-    strides = {"text": 12, "children": 12, "attrs": 8, "names": 1, "mixed": 6} if tier == "quick" else {"text": 1, "children": 1, "attrs": 1, "names": 1, "mixed": 1}
+    strides = {"text": 12, "children": 12, "attrs": 8, "names": 1, "mixed": 6} if tier == "quick" else {"text": 4, "children": 4, "attrs": 3, "names": 1, "mixed": 2}
 
     def relation(rep, inst, cases):
         pc.run_relation(rep, "c11-rewrite", inst, cases, stride=strides[inst],
